@@ -1565,6 +1565,44 @@ def pyname_probes(ctx, want=2):
     return out
 
 
+# --- named probe: the input fields of a clone are its own (deterministic: consumes no ctx.rng; seeded C14-11) -------------
+NESTED_INPUT_PROBE_STEPS = [
+    {"op": "clone", "src": 0},
+    {"op": "transform", "src": 0, "visitors": [{"k": "camel"}]},
+    {"op": "inplace", "src": 1, "visitors": [{"k": "camel"}]},        # in place on the clone: the source must not see it
+    {"op": "transform", "src": 0, "visitors": []},
+]
+NESTED_INPUT_PROBE_SEEDS = [(2, k) for k in range(1, 40)] + [(3, k) for k in range(1, 60)]
+
+
+def _nested_input_precondition(seed, size):
+    """The source has an input object with a field whose (unwrapped) type is a non-specified type (enum, custom scalar,
+    another input object): healing a clone re-points exactly these references."""
+    import random
+    from py_gql.schema import InputObjectType, SPECIFIED_SCALAR_TYPES, unwrap_type
+    _, _, source = W.build_source(random.Random(seed), size, W.Funcs())
+    user = [t for n, t in source.types.items() if not n.startswith("__")]
+    return any(unwrap_type(f.type) not in SPECIFIED_SCALAR_TYPES for t in user if isinstance(t, InputObjectType) for f in t.fields) \
+        and any(isinstance(unwrap_type(f.type), InputObjectType) for t in user if isinstance(t, InputObjectType) for f in t.fields)
+
+
+def nested_input_probes(ctx, want=2):
+    out = []
+    for size, seed in NESTED_INPUT_PROBE_SEEDS:
+        try:
+            ok = _nested_input_precondition(seed, size)
+        except Exception:  # noqa
+            ok = False
+        if ok:
+            out.append((size, copy.deepcopy(NESTED_INPUT_PROBE_STEPS), seed, "input-fields-of-a-clone"))
+            if len(out) == want:
+                break
+    ctx.stat("probe:input-fields-of-a-clone:sources=%d" % len(out))
+    if len(out) < want:
+        ctx.notes.append("probe input-fields-of-a-clone: only %d of %d sources satisfy the precondition" % (len(out), want))
+    return out
+
+
 def run(ctx):
     try:
         cfg = read_cfg()
@@ -1578,7 +1616,7 @@ def run(ctx):
     budget_each = 0.8
     batch = []
     seen_sigs = set()
-    probes = pyname_probes(ctx)
+    probes = [p + ("pyname-through-camel-case",) for p in pyname_probes(ctx)] + nested_input_probes(ctx)
     # the probes run AFTER the random sequences: `ctx.later` draws from ctx.rng once its reservoir is full, so anything
     # inserted before them would shift every later random choice (and with it the classes other detections rely on)
     stopped = False
@@ -1589,14 +1627,14 @@ def run(ctx):
             stopped = True
             continue
         if i < 0 and ctx.time_left() < 5:
-            ctx.notes.append("probe pyname-through-camel-case skipped (time)")
+            ctx.notes.append("named probe skipped (time)")
             continue
         try:
             if i < 0:
-                size, psteps, pseed = probes[i + len(probes)]
+                size, psteps, pseed, pname = probes[i + len(probes)]
                 record, failures, schemas, dumper, msteps, base_world = one_sequence(
-                    ctx, "probe:pyname", size, len(psteps), steps=psteps, build_seed=pseed)
-                record["probe"] = "pyname-through-camel-case"
+                    ctx, "probe:" + pname, size, len(psteps), steps=psteps, build_seed=pseed)
+                record["probe"] = pname
             else:
                 size = ctx.rng.choice([1, 2, 2, 3, 4])
                 n_steps = ctx.rng.randint(2, 6)
